@@ -781,7 +781,14 @@ func (p *Parser) doHeredocs() {
 			r.Hdoc = p.getWord()
 		}
 		if stop := p.hdocStops[len(p.hdocStops)-1]; stop != nil {
-			p.posErr(r.Pos(), "unclosed here-document %#q", stop)
+			// More input could always close the here-document,
+			// no matter which token or lexer state we were left at.
+			p.errPass(ParseError{
+				Filename:   p.f.Name,
+				Pos:        r.Pos(),
+				Text:       fmt.Sprintf("unclosed here-document %#q", stop),
+				Incomplete: true,
+			})
 		}
 		p.hdocStops = p.hdocStops[:len(p.hdocStops)-1]
 	}
